@@ -1,10 +1,22 @@
 #!/bin/bash
 # usage: tools_seedtest.sh <seed dir> <property id> [gosym args...]
 # applies a seeded change to /repo, runs the property's quick check, always reverts.
+# The committed evidence/<id>.json must describe a run on the UNCHANGED tree, so the
+# evidence file the mutated run writes is moved to evidence-seeded/ (git-ignored) and
+# the previous one is put back.
 set -u
 seed="$1"; id="$2"; shift 2
 cd /verif
 git -C /repo apply "$(realpath $seed)/patch.diff" || { echo "APPLY-FAILED"; exit 3; }
-trap 'git -C /repo checkout -- . ' EXIT
+keep="$(mktemp -d /tmp/verif-seedtest-XXXXXX)"
+[ -f evidence/$id.json ] && cp evidence/$id.json "$keep/$id.json"
+restore() {
+  git -C /repo checkout -- .
+  mkdir -p evidence-seeded
+  [ -f evidence/$id.json ] && mv evidence/$id.json "evidence-seeded/$(basename $seed).json"
+  [ -f "$keep/$id.json" ] && cp "$keep/$id.json" evidence/$id.json
+  rm -rf "$keep"
+}
+trap restore EXIT
 if [ $# -gt 0 ]; then bin/gosym -config harness/$id/config.json -no-evidence "$@"; else ./check $id quick; fi
 echo "EXIT=$?"
